@@ -20,6 +20,9 @@ Decides:
  L repetition    whether a repetition goes round again depends only on what the inner parser returned and on State::len(), never on the
                         position of the consumed item or on the item next to it.
  T context free  the tokenizer never reads back items it produced for other words (the class of `-5` or `-vx` cannot depend on what precedes it).
+ R registry      collect_shorts descends through every wrapper (shared with C02): a short name that is missing from the cluster registry makes `-j4`
+                        a plain word, i.e. a positional whose place in the line matters.
+ T empty value   `--name=` carries the empty value and does not reach for its neighbour (shared with C02).
 Does not decide: invariance of the outcome under all permutations (value-level)."""
 from core import *
 from dataflow import *
@@ -29,7 +32,7 @@ import consumers, c07, c08, c09
 LEVEL = 'other'
 EXPLANATION = __doc__
 ASSUMPTIONS = []
-FLOORS = {'S.search': 18, 'I.index-opaque': 2, 'M.matcher': 8, 'C.command-scope': 1, 'T.separator': 2, 'H.help-version-order': 3, 'O.own-items': 10, 'L.repetition': 3}
+FLOORS = {'S.search': 18, 'I.index-opaque': 2, 'M.matcher': 8, 'C.command-scope': 1, 'T.separator': 2, 'H.help-version-order': 3, 'O.own-items': 10, 'L.repetition': 3, 'R.registry': 10}
 
 def run(ctx):
     cfgs = ['none', 'all']
@@ -40,8 +43,10 @@ def run(ctx):
         ctx.guard(consumers.accept_sets, ctx, cfg, fs, 'M.matcher')
         ctx.guard(c07.ledger_only, ctx, cfg, fs, 'I.index-opaque')
         ctx.guard(consumers.ledger_callers, ctx, cfg, fs, 'O.own-items')
-        import c05
+        import c05, c02, c12
         ctx.guard(c05.tokenizer_context_free, ctx, cfg, fs, 'T.separator')
+        ctx.guard(c08.keep_only, ctx, lambda: c02.equals_value(ctx, cfg, fs), lambda o: True, 'T.separator')
+        ctx.guard(c12.walker_rules, ctx, cfg, fs, 'R.registry', {'collect_shorts': c12.WALKERS['collect_shorts']})
         import c06
         ctx.guard(c06.loop_conditions, ctx, cfg, fs, 'L.repetition')
         ctx.guard(c08.keep_only, ctx, lambda: c09.tokenizer(ctx, cfg, fs), lambda o: 'marker-' in o.key, 'T.separator')
